@@ -26,8 +26,8 @@ deriving Repr, Inhabited
 /-- the CIF (slot, store) an op works on, if it is executed at all -/
 def target (w : World) : Op → Option (Nat × Store)
   | .cifNew | .cifDel _ | .itClose _ | .itAbort _ => none
-  | .mkBlock c _ | .getBlock c _ | .blocks c => (w.liveC c).map (fun s => (c, s))
-  | .mkFrame h _ | .getFrame h _ | .frames h | .mkLoop h _ _ | .catLoop h _ | .itemLoop h _ | .loops h | .prune h
+  | .mkBlock c _ _ | .getBlock c _ | .blocks c => (w.liveC c).map (fun s => (c, s))
+  | .mkFrame h _ _ | .getFrame h _ | .frames h | .mkLoop h _ _ | .catLoop h _ | .itemLoop h _ | .loops h | .prune h
   | .setVal h _ _ | .rmItem h _ => (w.liveH h).map (fun p => (p.1.cif, p.2))
   | .code _ | .isBlock _ | .getCat _ => none                 -- do not touch the database, allocate one string at most
   | .getVal h n => if n.isNone then none else (w.liveH h).map (fun p => (p.1.cif, p.2))
